@@ -335,7 +335,14 @@ def _same_position(f: FuncInfo, ra: set[str]) -> str:
             rng = norm(sl.args[0]) if isinstance(sl, ast.Call) and sl.args else None
             if rng is None:
                 return f'slice {norm(sl)} not understood'
-            if not any([norm(a) for a in c.args[:2]] == [f'{rng}.start', f'{rng}.stop'] for c in dels):
+            def _res(e: ast.AST) -> str:
+                if isinstance(e, ast.Name):
+                    src = [a for a in walk_no_nested(f.node) if isinstance(a, ast.Assign) and norm(a.targets[0]) == e.id]
+                    if len(src) == 1:
+                        return norm(src[0].value)
+                return norm(e)
+            stops = (f'{rng}.stop', f'max({rng}.start, {rng}.stop)', f'max({rng}.stop, {rng}.start)')
+            if not any(norm(c.args[0]) == f'{rng}.start' and _res(c.args[1]) in stops for c in dels):
                 return f'items[{norm(sl)}] replaced but tokens deleted over {[[norm(a) for a in c.args[:2]] for c in dels]}'
             if not any(norm(c.args[0]) == f'{rng}.start' for c in ins):
                 return f'items[{norm(sl)}] replaced but tokens inserted at {[norm(c.args[0]) for c in ins]}'
